@@ -36,7 +36,7 @@ RULE = (
     "distinct by recipe digest."
 )
 ASSUMPTIONS = ["reversal is examined for data-driven built-in scores only (a hash score has no symmetry)",
-               "reversal tolerance 1e-8*(1+max|score|); offset/scaled data kinds excluded from reversal"]
+               "reversal tolerance: data-dependent width of DESIGN s2 (c12.safe_width); ill-conditioned cases skipped and counted"]
 
 
 def make_recipe(rng, tier):
@@ -157,7 +157,16 @@ def exec_case(ctx, r):
             ctx.violation(sub, "exception", f"{label}: reversed series raised {type(ex).__name__}: {ex}", r)
             return
         ctx.stat("reversal_pairs")
-        rtol = 1e-8 * (1 + np.abs(want).max())
+        from vf.checks.c12 import safe_width
+
+        # data-dependent rounding width (DESIGN s2): short Gaussian windows with nearly equal
+        # values are ill-conditioned and must not be judged with a fixed relative tolerance
+        rtol = safe_width(spec, X.astype(float), Xr.astype(float), float(np.abs(want).max()))
+        if rtol is None:
+            ctx.stat("ill_conditioned_skipped")
+            if kept:
+                ctx.nt(digest([spec, r["X"]]))
+            return
         mirrored = np.zeros(n)
         mirrored[ts] = scores[n - ts]
         if np.any(np.abs(sr - mirrored) > rtol):
